@@ -167,9 +167,10 @@ func runC16Shaped(c *core.Ctx) {
 		before := slices.Clone(cont.Values())
 		for ci := -1; ci < 2; ci++ {
 			var got []int
-			cf := intCmps[0].F
+			// (both orders as closures of one factory: one code pointer)
+			cf := viaFactory(intCmps[0].F, false)
 			if ci == 1 {
-				cf = intCmps[1].F
+				cf = viaFactory(intCmps[0].F, true)
 			}
 			if ci < 0 {
 				c.Begin(name, "GetSortedValues", n)
